@@ -21,7 +21,7 @@ REAL = ["all train_* routines incl. buffers, losses, optimisers", "MemoryLogger"
 STUB = ["environment (SimEnv / SimTabEnv, seeded sampler)"]
 ASSUMPTIONS = ["XLA thread configuration and platform are held fixed between twins (the property assumes the same machine)",
                "identically initialised function approximators = built by the same constructor calls from the same seed in each interpreter"]
-TIERS = {"quick": {"runs": 32}, "thorough": {"runs": 320}}
+TIERS = {"quick": {"runs": 48}, "thorough": {"runs": 480}}
 REQUIRED = ["twin_pairs_equal", "different_seed_differs"]
 REQUIRED_QUICK = REQUIRED
 SHRINK_LISTS = []
@@ -31,9 +31,12 @@ TRAIN = ["ddpg", "td3", "td3_lap", "sac", "dqn", "nature_dqn", "ddqn", "ddqn_per
 TAB = ["q_learning", "sarsa", "double_q_learning", "monte_carlo", "dynaq"]
 
 
+SCHED = ["smt", "active_mt", "uts"]
+
+
 def routines():
     extra = [a for a in ("reinforce", "actor_critic", "a2c", "ppo", "cmaes") if a in trainsim.ADAPTERS]
-    return [("train", a) for a in TRAIN + extra] + [("tab", a) for a in TAB]
+    return [("train", a) for a in TRAIN + extra] + [("tab", a) for a in TAB] + [("sched", a) for a in SCHED]
 
 
 def make_plan(rng, tier, index):
@@ -52,9 +55,23 @@ def make_plan(rng, tier, index):
             c["exploration_noise"] = rng.choice([0.1, 0.2])
         if "buffer_size" in c:
             c["buffer_size"] = max(c["buffer_size"], 8)
+        if not plan["env"]["discrete"] and rng.random() < 0.3:
+            plan["env"]["act_dtype"] = "float64"
+    elif kind == "sched":
+        from rlsim import schedsim
+        while True:
+            plan = schedsim.make_plan(rng, 6)
+            if plan["sched_kind"] == "scheduler":
+                break
+        plan["scheduler"] = name
+        plan["backbone"] = "stub"
+        plan["interval"] = rng.choice([1, 2])
+        plan.update(check=PROPERTY, engine="sched", adapter=name)
     else:
         plan = tabsim.make_tab_plan(rng, name, rng.choice([10, 25]))
         plan["epsilon"] = rng.choice([0.3, 0.5])
+        if name == "dynaq":
+            plan["n_planning_steps"] = rng.choice([1, 3])
         plan.update(check=PROPERTY, clauses=[], engine="tab")
     plan["hashseeds"] = [rng.choice(["0", "1"]), rng.choice(["7", "42", "123", "999"])]  # fixed values: a violation must replay
     return plan
@@ -64,8 +81,38 @@ def normalise(plan):
     return plan
 
 
+def prerun_plan(plan):
+    """A DIFFERENT configuration of the same routine, executed first in twin B's interpreter: results must not depend
+    on what ran earlier in the process (hidden module-level state, caches keyed too coarsely)."""
+    import json as _json
+
+    p = _json.loads(_json.dumps(plan))
+    p.pop("prerun", None)
+    if plan["engine"] == "train":
+        c = p["cfg"]
+        for k, v in (("gamma", 0.37), ("tau", 0.11), ("hidden", 5 if c.get("hidden") != 5 else 6), ("batch_size", 5), ("variance", 0.33)):
+            if k in c:
+                c[k] = v
+        p["seed"] = plan["seed"] + 13
+        p["chain"] = [dict(l, total_timesteps=min(l["total_timesteps"], 12)) for l in p["chain"][:1]]
+        if plan["adapter"] == "ppo":
+            c["iterations"] = 1
+    elif plan["engine"] == "tab":
+        p.update(lr=0.77, gamma=0.41, seed=plan["seed"] + 13, T=min(plan["T"], 8))
+    else:
+        p.update(r_max=plan["r_max"] * 7.0, gamma=0.5, zeta=plan["zeta"] * 50.0, kappa=0.33, seed=plan["seed"] + 13)
+    return p
+
+
 def execute_inner(plan):
     """Runs in the twin child."""
+    if plan.get("prerun"):
+        pre = prerun_plan(plan)
+        execute_inner(pre)
+    if plan["engine"] == "sched":
+        from rlsim import schedsim
+
+        return schedsim.exec_scheduler(plan)
     if plan["engine"] == "tab":
         run = tabsim.TabRun(plan)
         run.res.log.keep = 20000
@@ -92,13 +139,17 @@ def child(plan, variant, hashseed, scratch, tag):
 
 def execute(plan):
     res = Result()
-    site = ("train_" + plan["adapter"]) if plan["engine"] == "train" else ("train_" + plan["algo"])
+    site = ("train_" + plan["adapter"]) if plan["engine"] in ("train", "sched") else ("train_" + plan["algo"])
     scratch = tempfile.mkdtemp(prefix="rlsim_twin_", dir=os.environ.get("VERIF_SCRATCH"))
     try:
         a = child(plan, 0, plan["hashseeds"][0], scratch, "a")
-        b = child(plan, 1, plan["hashseeds"][1], scratch, "b")
+        pb = json.loads(json.dumps(plan))
+        pb["prerun"] = True
+        b = child(pb, 1, plan["hashseeds"][1], scratch, "b")
         p2 = json.loads(json.dumps(plan))
         p2["seed"] = plan["seed"] + 1
+        if isinstance(p2.get("env"), dict) and "space_seed" in p2["env"]:
+            p2["env"]["space_seed"] += 1  # "a different seed" includes the environment's sampler seed
         c = child(p2, 2, plan["hashseeds"][0], scratch, "c")
     finally:
         import shutil
@@ -120,6 +171,7 @@ def execute(plan):
         res.fault("hashseed_" + plan["hashseeds"][1])
         res.fault("clock_shift")
         res.fault("global_rng_state")
+        res.fault("different_configuration_ran_first")
     if a["digest"] == c["digest"]:
         res.violate("C09.b", site, "a run with a different seed produced the identical event log (the comparison would be vacuous)")
     else:
